@@ -107,6 +107,25 @@ def run(chk, tier):
         chk.obligation("IT2", construct, not real)
         for kind, msg, node in real[:2]:
             chk.violation("IT2", construct, kind, "%s: %s" % (astx.loc(f, node), msg), {"where": astx.loc(f)})
+    n_out = 0
+    mem = [f for f in db.funcs if f["file"].startswith("_memory/") and f.get("kind") == "function" and f.get("body") is not None]
+    for f in funcs + mem:
+        if f.get("body") is None:
+            continue
+        r = IT.check_output(chk, f)
+        if r is None:
+            continue
+        n_out += 1
+        construct = astx.sig(f)
+        chk.instance("IT3")
+        chk.obligation("IT3", construct, r[0] == "ok", evaluations=r[1] if r[0] == "ok" else 1)
+        if r[0] == "bad":
+            cur, node, path = r[1]
+            chk.violation("IT3", construct, "returns-written-position", "%s: `%s` is returned while it still designates the last element "
+                          "written (it is not advanced after its last write on this path); the algorithm returns one past the last element"
+                          % (astx.loc(f, node if isinstance(node, dict) else None), cur), {"where": astx.loc(f)})
+    if n_out < 15:
+        chk.analysis_broken("IT3: only %d algorithms return their output cursor (floor 15)" % n_out)
     nt = tie_rule(chk, db)
     nrel = rel.check(chk, db, ["_iterator/reverse_iterator.hpp"])
     chk.extra["not_modelled"] = not_modelled
